@@ -73,36 +73,34 @@ func (self *Interpreter) callFunc(span errors.Span, val value.Value, args []ast.
 	case value.ClosureValueKind:
 		closure := val.(value.ValueClosure)
 
-		// push a scope into the closure
-		closure.Scopes = append(closure.Scopes, make(map[string]*value.Value))
 		self.callStackSize++
-
-		// use the closure's scopes as the scopes of the current module
-		scopesPrev := self.currentModule.scopes
-		// use the closure's scope here
-		self.currentModule.scopes = closure.Scopes
-
-		// TODO: copy all used variables BY VALUE
-		// TODO: implement an analyzer step which detects all variables which the closure captures
-		// TODO: verify that this really works
-		// TODO: this can be done more efficiently
-
 		defer func() {
 			self.callStackSize--
-			// pop the closure scope again
-			closure.Scopes = closure.Scopes[:len(closure.Scopes)-1]
-			// restore scopes
-			self.currentModule.scopes = scopesPrev
 		}()
 
+		// The arguments are evaluated in the scopes of the caller.
+		// Every parameter gets a slot of its own: assigning to it must not affect the caller's variable.
+		params := make(map[string]*value.Value)
 		for _, arg := range args {
 			argVal, i := self.expression(arg.Expression)
 			if i != nil {
 				return nil, i
 			}
-
-			closure.Scopes[len(closure.Scopes)-1][arg.Name] = argVal
+			slot := *argVal
+			params[arg.Name] = &slot
 		}
+
+		// The closure runs in the scopes it captured plus a fresh one for its parameters.
+		// This uses a copy of the slice: appending in place can overwrite a scope of the caller.
+		scopes := make([]map[string]*value.Value, len(closure.Scopes), len(closure.Scopes)+1)
+		copy(scopes, closure.Scopes)
+		scopes = append(scopes, params)
+
+		scopesPrev := self.currentModule.scopes
+		self.currentModule.scopes = scopes
+		defer func() {
+			self.currentModule.scopes = scopesPrev
+		}()
 
 		val, i := self.block(closure.Block, false)
 		if i != nil {
